@@ -591,6 +591,50 @@ def addTemplateDirSorted (d : Lookup) (listing : List Tpl) : Option Lookup :=
 Kept for the record only (`addTemplateDir_listing_counterexample_old`). -/
 def addTemplateDirOld (d : Lookup) (listing : List Tpl) : Option Lookup := addTemplateDir d listing
 
+/-! ## 7. hunter round: extension load order, repr of a live set, the docutils `date` directive -/
+
+/-- extensions._get_submodules / get_extensions:
+```
+for name in _importlib_resources_contents(pkg):          # [path.name for path in files(pkg).iterdir()] - NOT sorted
+    if (not name.startswith('_') and _importlib_resources_is_resource(pkg, name)) and name.endswith('.py'):
+        yield f"{pkg}.{name[:-len('.py')]}"
+```
+`listing` = the entries of pydoctor/extensions/ (name, is a file) in the order the file system lists them; the
+result is the order in which System.__init__ loads the built-in extensions (mixins, AST visitor extensions,
+post-processors are registered in that order). -/
+def getExtensions (listing : List (Name × Bool)) : List Name :=
+  listing.filterMap (fun e =>
+    if e.1.head? ≠ some 95 ∧ e.2 = true ∧ endsWith e.1 [46, 112, 121] then some (e.1.take (e.1.length - 3)) else none)
+
+/-- the proposed repair (fixes/C18-extension-load-order-sorted.diff): `for name in sorted(...)` -/
+def getExtensionsSorted (listing : List (Name × Bool)) : List Name :=
+  getExtensions (sortedWith lexLe (·.1) listing)
+
+/-- AST visitor extensions registered with the same timing run in the order they were loaded; each of attrs
+(`_handleAttrsAssignmentInClass`: kind = INSTANCE_VARIABLE) and zopeinterface
+(`_handleZopeInterfaceAssignmentInClass`: kind = ATTRIBUTE / SCHEMA_FIELD) ASSIGNS `attr.kind` for an assignment it
+recognises: the last one loaded wins.  `claims` = for each loaded extension, in load order, the kind it assigns
+(`none`: it does not recognise the assignment). -/
+def kindAfterVisitors (initial : Nat) (claims : List (Option Nat)) : Nat :=
+  claims.foldl (fun k c => match c with | some k' => k' | none => k) initial
+
+/-- model._EscapedRepr.__repr__ on a live `set` of strs (a set default of an introspected signature):
+`html.escape(repr(value))`; `repr` of a set walks it in the interpreter's enumeration order. `enum` = that order,
+each element already as its own repr. -/
+def setRepr (enum : List Name) : Name :=
+  match enum with
+  | [] => [115, 101, 116, 40, 41]                                 -- "set()"
+  | _ => [123] ++ join [44, 32] enum ++ [125]                      -- "{a, b}"
+
+/-- the proposed repair (fixes/C18-introspected-set-default-sorted.diff): elements sorted by their repr -/
+def setReprSorted (enum : List Name) : Name := setRepr (sorted enum)
+
+/-- the time a reStructuredText docstring shows through docutils' `date` directive
+(docutils.parsers.rst.directives.misc.Date.run of the installed docutils: `text = time.strftime(format_str)`; its
+SOURCE_DATE_EPOCH branch is commented out).  pydoctor hands it neither `system.buildtime`, nor `--buildtime`, nor
+the variable: none of them is consulted. -/
+def rstDateTime (now : Int) (_env : EnvEpoch) (_opt : OptTime) : Int := now
+
 /-- the executable property predicate for part 1: a site function gives the same answer on two
 enumerations -/
 def sameOn {α β : Type} [BEq β] (f : List α → β) (e₁ e₂ : List α) : Bool := f e₁ == f e₂
